@@ -125,6 +125,14 @@ func checkC13(c *Check) {
 				c.Cond(fn == region, key, p.Pos(in.Pos()), "underlying WriteHeader is inside the status region "+p.FuncKey(region), "underlying WriteHeader is called outside the once-guarded status region: a second status line can reach the client")
 			case "Write":
 				c.Cond(fn == mW || isBodyWriter(fn), key, p.Pos(in.Pos()), "underlying Write only in responseWriter.Write (or a sibling body-writing method held to the same obligations)", "underlying Write is called outside responseWriter.Write (implicit status / HEAD suppression / size bypassed)")
+			case "FlushError":
+				// the error-returning flush of net/http's ResponseController: as Flush, only behind a sent status
+				under["Flush"] = append(under["Flush"], ci)
+				if committedBefore(fn, ci) {
+					c.OK(key, p.Pos(in.Pos()), "underlying FlushError in "+p.FuncKey(fn)+" is reachable only after a status line was sent (Written(), or the implicit WriteHeader(200) through the wrapper)", 1)
+				} else {
+					c.Bad(key, p.Pos(in.Pos()), "underlying FlushError is called before the status is committed (implicit status bypassed)")
+				}
 			case "Flush":
 				if fn == mF {
 					c.OK(key, p.Pos(in.Pos()), "underlying Flush only in responseWriter.Flush", 1)
